@@ -272,6 +272,53 @@ def needs_wide_csize(case):
     return False
 
 
+def shape_ext_runs(c, rng):
+    """an extended-L2 image gets three guest-consecutive, host-consecutive clusters A, B, C whose sub-cluster runs meet at the
+    cluster boundaries: A ends in a run of some state, B starts with a PARTIAL run of that state, C starts with that state
+    again; requests start inside A's last run.  (What a run counter decides at the first cluster must hold at every later one.)
+    -> True when the case was shaped"""
+    cb, cs, ext, es, l2n = geometry(c)
+    if not ext or c["datafile"]:
+        return False
+    ncl = (c["size"] + cs - 1) // cs
+    cand = [g for g in range(0, ncl - 2) if all(str((g + d) // l2n) in c["l2tabs"] for d in range(3))]
+    if not cand:
+        return False
+    g = rng.pick(cand)
+    scs = cs // 32
+    host0 = (max(c["file_size"], 1) + cs - 1) // cs * cs + cs
+    state = rng.pick(["alloc", "zero"])
+    p = rng.randint(1, 31)                     # B: sub-clusters 0..p-1 in the state, the rest in another one
+    k = rng.randint(max(1, 32 - p), 31)        # the request starts at sub-cluster k of A
+    full, pre = 0xFFFFFFFF, (1 << p) - 1
+    other = rng.pick(["zero", "unalloc"]) if state == "alloc" else rng.pick(["alloc", "unalloc"])
+
+    def bits(main, rest):
+        alloc = (main if state == "alloc" else 0) | (rest if other == "alloc" else 0)
+        zero = (main if state == "zero" else 0) | (rest if other == "zero" else 0)
+        return alloc, zero
+    for d, (main, rest) in enumerate([(full, 0), (pre, full & ~pre), (full if rng.chance(0.5) else pre | 1, 0)]):
+        a, z = bits(main, rest)
+        c["clusters"][str(g + d)] = {"t": "ext", "host": host0 + d * cs, "alloc": a, "zero": z, "copied": True}
+    c["file_size"] = host0 + 4 * cs
+    size = c["size"]
+    for _ in range(3):
+        off = g * cs + k * scs + rng.pick([0, 0, rng.randrange(0, scs)])
+        n = min(size - off, (32 - k) * scs + 32 * scs + rng.randint(1, 32) * scs)
+        if n > 0:
+            c["reqs"].append([rng.pick(["raw", "bytes"]), off, n, "ext_runs"])
+        k = rng.randint(max(1, 32 - p), 31)
+    return True
+
+
+def gen_ext_runs_case(rng, tier):
+    for _ in range(4000):
+        c = gen_case(rng, tier)
+        if c["ext"] and c["backing"] is None and shape_ext_runs(c, rng):
+            return c
+    return gen_case(rng, tier)
+
+
 def gen_case_where(rng, tier, pred, bigbuf=False, tries=4000):
     """a generated case that satisfies pred (the last one tried if none does)"""
     c = None
@@ -567,6 +614,8 @@ class Qcow2Suite(Suite):
             n = 3000 if tier == "thorough" else 220
         from harness.readers import with_twins
         directed = [gen_case_where(rng, tier, needs_wide_csize, self.bigbuf)]
+        if not self.bigbuf:
+            directed += [gen_ext_runs_case(rng, tier) for _ in range(12 if tier == "thorough" else 3)]
         return with_twins(directed + [gen_case(rng, tier, self.bigbuf) for _ in range(n)], rng)
 
     # -- implementation side (worker process)
